@@ -661,6 +661,9 @@ func drawFlow(t *rapid.T, check string) *Case {
 	p.Fences = drawBool(t, "fences", 30)
 	p.BodyReadFences = check == "C12" && drawBool(t, "bodyreadfences", 30)
 	p.WriteFences = check == "C12" && drawBool(t, "writefences", 30)
+	// 10%: the serve loop is held back by the controller while an asynchronous write is in flight
+	// (write results, frames from the client and handler messages pile up and are seen together)
+	p.ServeFences = check == "C12" && drawBool(t, "servefences", 10)
 	p.Tape, p.Tail = drawTape(t, 128)
 	c := &Case{Plan: p, Metas: []*ClientMeta{{Proto: "h2"}}, Aux: aux}
 	var ev []string
